@@ -10,8 +10,11 @@ import (
 	"runtime"
 	"strconv"
 	"sync"
+	"sync/atomic"
 	"time"
 )
+
+var jitter atomic.Uint64
 
 type thread struct {
 	idx    int
@@ -85,7 +88,16 @@ func (c *Controller) Yield(point string) {
 	c.mu.Unlock()
 	if t == nil || free {
 		if free {
-			runtime.Gosched()
+			// free-running (race-detector) phase: widen the windows between "decided to take the lock" and
+			// "took it" - an access moved out of its critical section then meets the other thread's
+			switch n := jitter.Add(0x9E3779B97F4A7C15) >> 33; n % 4 {
+			case 0:
+				runtime.Gosched()
+			case 1:
+				time.Sleep(time.Duration(n%97) * time.Microsecond)
+			case 2:
+				time.Sleep(time.Duration(n%997) * time.Microsecond)
+			}
 		}
 		return
 	}
